@@ -113,8 +113,6 @@ Qed.
 
 (* ---- "../" repeated ------------------------------------------------------------------------------ *)
 
-Fixpoint ups (m : nat) : str := match m with O => [] | S k => UP ++ ups k end.
-
 Lemma ups_snoc m : ups m ++ UP = ups (S m).
 Proof. induction m as [|m IH]; simpl; auto. simpl in IH. rewrite IH. reflexivity. Qed.
 
@@ -157,7 +155,9 @@ Lemma rel_loop_sound abs ts : Forall wfc ts -> forall fuel g result,
   prefix_eqb (dirprefix abs g) (render (abs, ts)) = false ->
   exists g' dropped r, g = g' ++ dropped /\ dropped <> [] /\ ts = g' ++ r /\
     rel_loop fuel (dirprefix abs g) (render (abs, ts)) result
-    = result ++ ups (length dropped - 1) ++ join r.
+    = result ++ ups (length dropped - 1) ++ join r /\
+    (* the loop stopped at the longest prefix that passes the test: one component more did not *)
+    (exists d0 rest, dropped = d0 :: rest /\ prefix_eqb (dirprefix abs (g' ++ [d0])) (render (abs, ts)) = false).
 Proof.
   intros Hts. induction fuel as [|f IH]; intros g result Hg Hf Hp; [lia|].
   destruct (rev_case g) as [->|(g2 & c & ->)].
@@ -176,7 +176,9 @@ Proof.
       rewrite first_is_slash_render_rel by auto.
       assert (Hne : nonempty c = true) by (destruct c; [contradiction|reflexivity]).
       rewrite Hne. simpl andb. cbv iota.
-      exists [], [c], ts. repeat split; auto; [discriminate|]. simpl. rewrite render_absP. reflexivity.
+      exists [], [c], ts. split; [reflexivity|]. split; [discriminate|]. split; [reflexivity|]. split.
+      { simpl. rewrite render_absP. reflexivity. }
+      exists c, []. split; [reflexivity|exact Hp].
     + rewrite <- EX.
       destruct (dirprefix_last abs g2) as (Y & EY).
       { destruct abs; auto. right. intros ->. discriminate. }
@@ -187,17 +189,60 @@ Proof.
       destruct (prefix_eqb (dirprefix abs g2) (render (abs, ts))) eqn:P.
       * pose proof (prefix_eqb_true _ _ P) as E.
         destruct (render_dirprefix_inv abs g2 ts _ Hg2 Hts E) as (r & -> & Er).
-        exists g2, [c], r. repeat split; auto; [discriminate|]. simpl. rewrite Er. reflexivity.
-      * destruct (IH g2 (result ++ UP) Hg2) as (g' & dropped & r & -> & Hd & -> & E); auto.
+        exists g2, [c], r. split; [reflexivity|]. split; [discriminate|]. split; [reflexivity|]. split.
+        { simpl. rewrite Er. reflexivity. }
+        exists c, []. split; [reflexivity|exact Hp].
+      * destruct (IH g2 (result ++ UP) Hg2) as (g' & dropped & r & -> & Hd & -> & E & (d0 & rest & Ed & Pd)); auto.
         { rewrite app_length in Hf. simpl in Hf. lia. }
-        exists g', (dropped ++ [c]), r. repeat split; auto.
-        -- rewrite app_assoc. reflexivity.
-        -- destruct dropped; discriminate.
+        exists g', (dropped ++ [c]), r. split; [rewrite app_assoc; reflexivity|].
+        split; [destruct dropped; discriminate|]. split; [reflexivity|]. split.
+        2:{ exists d0, (rest ++ [c]). split; [rewrite Ed; reflexivity|exact Pd]. }
         -- rewrite E. rewrite app_length. simpl length.
            replace (length dropped + 1 - 1)%nat with (S (length dropped - 1)).
            ++ rewrite <- ups_snoc. rewrite <- !app_assoc.
               f_equal. rewrite !app_assoc. f_equal. rewrite ups_snoc. simpl. reflexivity.
            ++ destruct dropped; [contradiction|]. simpl. lia.
+Qed.
+
+(* ---- `to` is a directory above `from` (repair fixes/C19/11) ---------------------------------------- *)
+
+Lemma concat_prefix_inv ts : forall fs x,
+  Forall wfc ts -> Forall wfc fs ->
+  concat (map (fun c => c ++ [47]) fs) = concat (map (fun c => c ++ [47]) ts) ++ x ->
+  exists d, fs = ts ++ d /\ x = concat (map (fun c => c ++ [47]) d).
+Proof.
+  induction ts as [|t ts IH]; intros fs x Hts Hfs E.
+  - exists fs. simpl in E. auto.
+  - inversion Hts as [|? ? [Ht1 Ht2] Hts']; subst.
+    change (concat (map (fun c0 => c0 ++ [47]) (t :: ts)))
+      with ((t ++ [47]) ++ concat (map (fun c0 => c0 ++ [47]) ts)) in E.
+    rewrite <- !app_assoc in E. simpl app in E.
+    destruct fs as [|f fs].
+    + simpl in E. destruct t; discriminate.
+    + inversion Hfs as [|? ? [Hf1 Hf2] Hfs']; subst.
+      change (concat (map (fun c0 => c0 ++ [47]) (f :: fs)))
+        with ((f ++ [47]) ++ concat (map (fun c0 => c0 ++ [47]) fs)) in E.
+      rewrite <- !app_assoc in E. simpl app in E.
+      destruct (sepfree_split_unique f t 47 47 _ _ Hf2 Ht2 is_sep_47 is_sep_47 E) as [-> E'].
+      destruct (IH _ _ Hts' Hfs' E') as (d & -> & ->). exists d. auto.
+Qed.
+
+Lemma count_slash_app a b : count_slash (a ++ b) = (count_slash a + count_slash b)%nat.
+Proof. unfold count_slash. rewrite filter_app, app_length. reflexivity. Qed.
+
+Lemma count_slash_sepfree c : sepfree c -> count_slash c = O.
+Proof.
+  unfold sepfree, count_slash. induction c as [|x c IH]; simpl; auto. intro H.
+  apply andb_true_iff in H as [H1 H2]. unfold is_sep in H1. unfold is_slash.
+  destruct (x =? 47); [discriminate|]. auto.
+Qed.
+
+Lemma count_slash_dirs d : Forall wfc d -> count_slash (concat (map (fun c => c ++ [47]) d)) = length d.
+Proof.
+  induction d as [|c d IH]; intro H; [reflexivity|]. inversion H as [|? ? [_ Hc] Hd]; subst.
+  change (concat (map (fun c0 => c0 ++ [47]) (c :: d)))
+    with ((c ++ [47]) ++ concat (map (fun c0 => c0 ++ [47]) d)).
+  rewrite !count_slash_app, (count_slash_sepfree c Hc), IH by auto. reflexivity.
 Qed.
 
 (* ---- the shape of the answer ---------------------------------------------------------------------- *)
@@ -228,7 +273,13 @@ Lemma relpath_shape abs fs ts from to :
   simplifyPath from = render (abs, fs) -> simplifyPath to = render (abs, ts) ->
   (getRelativePath from to = [46] /\ simplifyPath from = simplifyPath to) \/
   exists g' dropped r, fs = g' ++ dropped /\ ts = g' ++ r /\
-    getRelativePath from to = ups (length dropped) ++ join r.
+    getRelativePath from to = ups (length dropped) ++ join r /\
+    (* which of the three ways: `to` below `from`; `to` above `from`; the loop, which stopped at the longest common
+       prefix that passes its test, `to` not being above `from` *)
+    (dropped = [] \/ r = [] \/
+     exists d0 rest, dropped = d0 :: rest /\
+       prefix_eqb (dirprefix abs (g' ++ [d0])) (render (abs, ts)) = false /\
+       prefix_eqb (dirprefix abs ts) (dirprefix abs fs) = false).
 Proof.
   intros Hfs Hts Ef Et. unfold getRelativePath. rewrite Ef, Et.
   destruct (str_eqb (render (abs, fs)) (render (abs, ts))) eqn:Eq.
@@ -238,12 +289,23 @@ Proof.
     + pose proof (prefix_eqb_true _ _ P) as E.
       destruct (render_dirprefix_inv abs fs ts _ Hfs Hts E) as (r & -> & Er).
       exists fs, [], r. rewrite app_nil_r. repeat split; auto.
-    + destruct (rel_loop_sound abs ts Hts (S (length (dirprefix abs fs))) fs UP Hfs) as (g' & dropped & r & -> & Hd & -> & E); auto.
+    + rewrite (initial_sf abs ts Hts).
+      destruct (prefix_eqb (dirprefix abs ts) (dirprefix abs fs)) eqn:P2.
+      { (* `to` is a directory above `from` *)
+        pose proof (prefix_eqb_true _ _ P2) as E. unfold dirprefix in E at 1 2. rewrite <- app_assoc in E.
+        apply app_inv_head in E.
+        destruct (concat_prefix_inv ts fs _ Hts Hfs E) as (d & -> & Ex).
+        apply Forall_app in Hfs as [_ Hd].
+        exists ts, d, []. rewrite app_nil_r. split; [reflexivity|]. split; [reflexivity|]. split; [|right; left; reflexivity].
+        rewrite Ex, (count_slash_dirs d Hd). simpl. rewrite app_nil_r. reflexivity. }
+      destruct (rel_loop_sound abs ts Hts (S (length (dirprefix abs fs))) fs UP Hfs) as (g' & dropped & r & -> & Hd & -> & E & (d0 & rest & Ed & Pd)); auto.
       * unfold dirprefix. rewrite app_length.
         assert (L : (length fs <= length (concat (map (fun c : list Z => c ++ [47%Z]) fs)))%nat).
         { clear. induction fs as [|c fs IH]; simpl; auto. rewrite !app_length. simpl. lia. }
         lia.
-      * exists g', dropped, r. repeat split; auto. rewrite E.
+      * exists g', dropped, r. split; [reflexivity|]. split; [reflexivity|]. split.
+        2:{ right; right. exists d0, rest. split; [exact Ed|]. split; [exact Pd|reflexivity]. }
+        rewrite E.
         destruct dropped as [|d dropped]; [contradiction|]. cbn [length]. replace (S (length dropped) - 1)%nat with (length dropped) by lia. cbn [ups]. rewrite <- app_assoc. reflexivity.
 Qed.
 
@@ -324,7 +386,7 @@ Proof.
   { apply nf_no_dotdot_plain; auto. apply negb_true_iff in H3.
     unfold normalise in H3. cbn [snd components] in H3. fold (toks from) in H3. fold F in H3.
     rewrite has_dotdot_rev in H3. exact H3. }
-  destruct (relpath_shape abs (rev F) (rev T) from to) as [[E1 E2]|(g' & dropped & r & Eg & Er & E)];
+  destruct (relpath_shape abs (rev F) (rev T) from to) as [[E1 E2]|(g' & dropped & r & Eg & Er & E & _)];
     auto using Forall_rev.
   - (* equal after simplification: "." *)
     rewrite E1, <- E2. rewrite simplify_spec. unfold canon. rewrite components_joined by reflexivity.
@@ -337,4 +399,162 @@ Proof.
     + assert (W : Forall wfc (g' ++ r)) by (rewrite <- Er; apply Forall_rev; auto).
       apply Forall_app in W as [_ W]. exact W.
     + rewrite <- Er, rev_involutive. exact NT.
+Qed.
+
+(* ---- the wider class: `from` keeps leading ".." but no more of them than `to` (round 5) ---------------- *)
+
+Lemma nf_app_r x : forall y, nf (x ++ y) -> nf y.
+Proof.
+  induction x as [|e x IH]; intros y H; [exact H|].
+  apply IH. destruct H as (names & n & E & Hn). destruct names as [|e' names].
+  - destruct n as [|n]; [discriminate E|]. simpl in E. inversion E as [[E0 E1]]. exists [], n. split; [exact E1|constructor].
+  - simpl in E. inversion E as [[E0 E1]]. inversion Hn; subst. exists names, n. split; [exact E1|assumption].
+Qed.
+
+Lemma nf_rev_prefix a b : nf (rev (a ++ b)) -> nf (rev a).
+Proof. rewrite rev_app_distr. apply nf_app_r. Qed.
+
+(* bottom-first reading of a normal form: a block of ".." and then proper names *)
+Lemma nf_rev_shape l : nf (rev l) -> exists n names, l = repeat DOTDOT n ++ names /\ Forall plain names.
+Proof.
+  intros (names & n & E & Hn). exists n, (rev names). split; [|apply Forall_rev; exact Hn].
+  rewrite <- (rev_involutive l), E, rev_app_distr, rev_repeat. reflexivity.
+Qed.
+
+Lemma count_dotdot_app a b : count_dotdot (a ++ b) = (count_dotdot a + count_dotdot b)%nat.
+Proof. unfold count_dotdot. rewrite filter_app, app_length. reflexivity. Qed.
+
+Lemma count_dotdot_plain l : Forall plain l -> count_dotdot l = O.
+Proof.
+  unfold count_dotdot. induction l as [|c l IH]; intro H; [reflexivity|]. inversion H as [|? ? [_ Hc] Hl]; subst.
+  simpl. apply str_eqb_neq in Hc. rewrite Hc. auto.
+Qed.
+
+Lemma count_dotdot_cons_dd l : count_dotdot (DOTDOT :: l) = S (count_dotdot l).
+Proof. reflexivity. Qed.
+
+(* a part of a normal form (bottom first) without "..": proper names only *)
+Lemma nf_part_plain a : forall l n names,
+  a ++ l = repeat DOTDOT n ++ names -> Forall plain names -> count_dotdot l = O -> Forall plain l.
+Proof.
+  induction a as [|x a IH]; intros l n names E Hn C.
+  - simpl in E. subst l. destruct n as [|n]; [exact Hn|]. simpl in C. rewrite count_dotdot_cons_dd in C. discriminate C.
+  - destruct n as [|n]; simpl in E.
+    + subst names. inversion Hn; subst. apply Forall_app in H2 as [_ H2]. exact H2.
+    + inversion E. eapply IH; eauto.
+Qed.
+
+(* ... with a "..": it starts with one, and everything before it is ".." too *)
+Lemma nf_part_dotdot a : forall l n names,
+  a ++ l = repeat DOTDOT n ++ names -> Forall plain names -> count_dotdot l <> O -> exists l', l = DOTDOT :: l'.
+Proof.
+  induction a as [|x a IH]; intros l n names E Hn C.
+  - simpl in E. subst l. destruct n as [|n]; [|simpl; eauto].
+    simpl in C. rewrite (count_dotdot_plain _ Hn) in C. contradiction.
+  - destruct n as [|n]; simpl in E.
+    + subst names. inversion Hn; subst. apply Forall_app in H2 as [_ H2].
+      rewrite (count_dotdot_plain _ H2) in C. contradiction.
+    + inversion E. eapply IH; eauto.
+Qed.
+
+Lemma join_app_dirs g : forall y, y <> [] -> join (g ++ y) = concat (map (fun c => c ++ [47]) g) ++ join y.
+Proof.
+  induction g as [|c g IH]; intros y Hy; [reflexivity|].
+  change ((c :: g) ++ y) with (c :: (g ++ y)).
+  change (concat (map (fun c0 => c0 ++ [47]) (c :: g))) with ((c ++ [47]) ++ concat (map (fun c0 => c0 ++ [47]) g)).
+  rewrite <- !app_assoc. rewrite <- IH by auto.
+  destruct (g ++ y) as [|d t] eqn:E; [destruct g; [contradiction|discriminate]|].
+  reflexivity.
+Qed.
+
+Lemma prefix_dirprefix_render abs g y : y <> [] -> prefix_eqb (dirprefix abs g) (render (abs, g ++ y)) = true.
+Proof.
+  intro Hy. rewrite render_absP, (join_app_dirs g y Hy). unfold dirprefix. rewrite app_assoc. apply prefix_eqb_app.
+Qed.
+
+Lemma prefix_dirprefix_dirprefix abs g y : prefix_eqb (dirprefix abs g) (dirprefix abs (g ++ y)) = true.
+Proof.
+  unfold dirprefix. rewrite map_app, concat_app, app_assoc. apply prefix_eqb_app.
+Qed.
+
+Lemma denotes_wide from abs g' dropped r :
+  starts_with_sep from = abs ->
+  fold_left norm_step (toks from) [] = rev (g' ++ dropped) ->
+  Forall plain dropped -> nf (rev g') -> Forall wfc r -> nf (rev (g' ++ r)) ->
+  simplifyPath (rel_joined from (ups (length dropped) ++ join r)) = render (abs, g' ++ r).
+Proof.
+  intros Habs Ef Hd Hg Hr Hnf. rewrite simplify_spec. unfold canon.
+  rewrite components_joined by (apply starts_with_sep_ups_join; auto).
+  rewrite toks_ups, toks_join by auto.
+  unfold normalise. cbn [fst snd]. rewrite Habs. f_equal. f_equal.
+  rewrite !fold_left_app, Ef. rewrite rev_app_distr.
+  rewrite <- (rev_length dropped). rewrite pops by (apply Forall_rev; auto).
+  pose proof (fold_norm_nf_fix _ Hnf) as F. rewrite rev_involutive in F.
+  rewrite fold_left_app in F.
+  pose proof (fold_norm_nf_fix _ Hg) as G. rewrite rev_involutive in G. rewrite G in F.
+  rewrite F. apply rev_involutive.
+Qed.
+
+Lemma relative_path_denotes_target_wide_l from to :
+  rel_hyp_wide from to = true ->
+  simplifyPath (rel_joined from (getRelativePath from to)) = simplifyPath to.
+Proof.
+  unfold rel_hyp_wide. intro H. apply andb_true_iff in H as [H2 H3].
+  apply Bool.eqb_prop in H2. apply Nat.leb_le in H3.
+  set (abs := starts_with_sep from) in *.
+  set (F := fold_left norm_step (toks from) []).
+  set (T := fold_left norm_step (toks to) []).
+  assert (WF : Forall wfc F) by (apply fold_norm_wf; [constructor|apply toks_wf]).
+  assert (WT : Forall wfc T) by (apply fold_norm_wf; [constructor|apply toks_wf]).
+  assert (NF : nf F) by (apply fold_norm_nf, nf_nil).
+  assert (NT : nf T) by (apply fold_norm_nf, nf_nil).
+  assert (Ef : simplifyPath from = render (abs, rev F)) by (rewrite simplify_spec; reflexivity).
+  assert (Et : simplifyPath to = render (abs, rev T)).
+  { rewrite simplify_spec. unfold canon, normalise. rewrite components_eq. cbn [fst snd]. rewrite <- H2. reflexivity. }
+  unfold normalise in H3. cbn [snd components] in H3. fold (toks from) in H3. fold (toks to) in H3. fold F in H3. fold T in H3.
+  destruct (relpath_shape abs (rev F) (rev T) from to) as [[E1 E2]|(g' & dropped & r & Eg & Er & E & Way)];
+    auto using Forall_rev.
+  - (* equal after simplification: "." *)
+    rewrite E1, <- E2. rewrite simplify_spec. unfold canon. rewrite components_joined by reflexivity.
+    unfold normalise. cbn [fst snd]. rewrite fold_left_app. simpl fold_left.
+    rewrite simplify_spec. unfold canon, normalise. rewrite components_eq. reflexivity.
+  - rewrite Eg, Er, !count_dotdot_app in H3.
+    assert (NF' : nf (rev (g' ++ dropped))) by (rewrite <- Eg, rev_involutive; exact NF).
+    assert (NT' : nf (rev (g' ++ r))) by (rewrite <- Er, rev_involutive; exact NT).
+    destruct (nf_rev_shape _ NF') as (nf_ & namesF & EF & HnF).
+    destruct (nf_rev_shape _ NT') as (nt_ & namesT & ET & HnT).
+    assert (PD : Forall plain dropped).
+    { destruct (Nat.eq_dec (count_dotdot dropped) 0) as [Z|NZ]; [exact (nf_part_plain g' dropped _ _ EF HnF Z)|].
+      exfalso.
+      destruct (nf_part_dotdot g' dropped _ _ EF HnF NZ) as (rest0 & Ed0).
+      assert (NZr : count_dotdot r <> O) by lia.
+      destruct (nf_part_dotdot g' r _ _ ET HnT NZr) as (r' & Er').
+      destruct Way as [D|[R|(d0 & rest & Ed & Pd & P2)]].
+      - subst dropped. discriminate Ed0.
+      - subst r. discriminate Er'.
+      - rewrite Ed in Ed0. inversion Ed0; subst d0 rest0. subst r.
+        destruct r' as [|x r'].
+        + (* `to` = g' ++ [".."] is a directory above `from` = g' ++ ".." :: rest: the early branch took it *)
+          rewrite Er, Eg, Ed in P2.
+          change (g' ++ DOTDOT :: rest) with (g' ++ [DOTDOT] ++ rest) in P2. rewrite app_assoc in P2.
+          rewrite prefix_dirprefix_dirprefix in P2. discriminate P2.
+        + rewrite Er in Pd. change (g' ++ DOTDOT :: x :: r') with (g' ++ [DOTDOT] ++ x :: r') in Pd.
+          rewrite app_assoc in Pd. rewrite prefix_dirprefix_render in Pd by discriminate. discriminate Pd. }
+    rewrite E, Et, Er.
+    apply denotes_wide; auto.
+    + fold F. rewrite <- Eg. symmetry. apply rev_involutive.
+    + exact (nf_rev_prefix _ _ NF').
+    + assert (W : Forall wfc (g' ++ r)) by (rewrite <- Er; apply Forall_rev; auto).
+      apply Forall_app in W as [_ W]. exact W.
+Qed.
+
+(* the old hypothesis (no ".." left in `from`) is the special case *)
+Lemma rel_hyp_is_wide from to : rel_hyp from to = true -> rel_hyp_wide from to = true.
+Proof.
+  unfold rel_hyp, rel_hyp_wide. intro H. apply andb_true_iff in H as [H1 H2]. rewrite H1. cbn [andb].
+  apply Nat.leb_le. apply negb_true_iff in H2.
+  assert (Z : count_dotdot (snd (normalise (components from))) = O); [|rewrite Z; lia].
+  unfold has_dotdot in H2. unfold count_dotdot.
+  induction (snd (normalise (components from))) as [|c l IH]; [reflexivity|].
+  simpl in H2 |- *. apply orb_false_iff in H2 as [Hc Hl]. rewrite Hc. auto.
 Qed.
